@@ -8,9 +8,10 @@
    Numbers.  Metrics and thresholds are integers in one common dyadic unit (the
    harness uses 1/8); the dummy epoch 0 has metric +inf = [None].  Learning rates are
    exact rationals kept in reduced form ([Qred]) so that equal rates are Leibniz-equal.
-   [rnd : Q -> Q] is what writing a rate to the history file and reading it back does:
-   the code as it is uses [fmt5] ("{:.4e}": 5 significant decimal digits, half-even on
-   the exact value); a repaired controller would have [Qred] (no loss).
+   [rnd : Q -> Q] is what writing a rate to the history file does and [rd : Q -> Q] what
+   reading the cell back does: the code as it is has [rnd = fmt5] ("{:.4e}": 5 significant
+   decimal digits, half-even on the exact value) and [rd = b64] (float(cell): nearest
+   binary64); a repaired controller would have [rnd = Qred] (print enough digits).
    The history is positional: cache_hist is a dict keyed by epoch, and every run the
    model describes has keys 0..n, so epoch e is the e-th element of the list. *)
 From Coq Require Import List ZArith QArith Qabs Bool String Ascii DecimalString DecimalZ Decimal.
@@ -96,6 +97,32 @@ Definition fmt5 (q : Q) : Q :=
   | Zneg n => Qred (Qopp (fmt5_pos (Zpos n) (Zpos (Qden q))))
   end.
 
+(* float(cell): the binary64 nearest to an exact positive rational (53 significant bits,
+   ties to even; no overflow/subnormal handling - rates are in the normal range) *)
+Fixpoint bin_up (fuel : nat) (n d k : Z) : Z * Z * Z :=
+  match fuel with
+  | O => (n, d, k)
+  | S f => if n <? 4503599627370496 * d then bin_up f (2 * n) d (k + 1) else (n, d, k)
+  end.
+Fixpoint bin_down (fuel : nat) (n d k : Z) : Z * Z * Z :=
+  match fuel with
+  | O => (n, d, k)
+  | S f => if 9007199254740992 * d <=? n then bin_down f n (2 * d) (k - 1) else (n, d, k)
+  end.
+Definition b64_pos (n d : Z) : Q :=
+  let fuel := Z.to_nat (Z.log2 n + Z.log2 d + 64) in
+  let '(n1, d1, k1) := bin_up fuel n d 0 in
+  let '(n2, d2, k2) := bin_down fuel n1 d1 k1 in
+  let m := round_half_even n2 d2 in
+  if 0 <=? k2 then Qred (Qmake m (Z.to_pos (Z.pow 2 k2)))
+  else Qred (Qmake (m * Z.pow 2 (- k2)) 1).
+Definition b64 (q : Q) : Q :=
+  match Qnum q with
+  | Z0 => 0%Q
+  | Zpos n => b64_pos (Zpos n) (Zpos (Qden q))
+  | Zneg n => Qred (Qopp (b64_pos (Zpos n) (Zpos (Qden q))))
+  end.
+
 (* ---------- update_cache / restart ------------------------------------------------------ *)
 Definition row0 (p : params) : row :=
   mkRow 0 (es_burn p) (es_pat p) (rlr_burn p) (rlr_pat p) (p_lr0 p) None None [].
@@ -121,17 +148,17 @@ Fixpoint parse_cells (decl : list (nat * ukind)) (cells : list string) : option 
       end
   end.
 
-Definition parse_row (decl : list (nat * ukind)) (c : crow) : option row :=
+Definition parse_row (rd : Q -> Q) (decl : list (nat * ukind)) (c : crow) : option row :=
   match parse_cells decl (c_user c) with
   | Some u => Some (mkRow (c_epoch c) (c_esres c) (c_espcd c) (c_rlrres c) (c_rlrpcd c)
-                          (Some (c_lr c)) (Some (c_train c)) (Some (c_val c)) u)
+                          (Some (rd (c_lr c))) (Some (c_train c)) (Some (c_val c)) u)
   | None => None
   end.
 
-Fixpoint parse_rows (decl : list (nat * ukind)) (l : list crow) : option (list row) :=
+Fixpoint parse_rows (rd : Q -> Q) (decl : list (nat * ukind)) (l : list crow) : option (list row) :=
   match l with
   | [] => Some []
-  | c :: t => match parse_row decl c, parse_rows decl t with
+  | c :: t => match parse_row rd decl c, parse_rows rd decl t with
               | Some r, Some rs => Some (r :: rs)
               | _, _ => None
               end
@@ -151,9 +178,9 @@ Fixpoint lookup (k : Z) (l : list (Z * Q)) : option Q :=
 
 (* A new controller on the same csv and state directory, entries re-declared, then
    load_model_and_optimizer_for_epoch(model, fresh optimizer with rate dflt). *)
-Definition restart (p : params) (decl : list (nat * ukind)) (dflt : Q) (st : state)
+Definition restart (rd : Q -> Q) (p : params) (decl : list (nat * ukind)) (dflt : Q) (st : state)
   : err + state :=
-  match parse_rows decl (csv st) with
+  match parse_rows rd decl (csv st) with
   | None => inl EValueError
   | Some rs =>
       let c := row0 p :: rs in
@@ -291,21 +318,21 @@ Inductive obs :=
 
 (* an exception in update_for_epoch or during the restart leaves files, cache and optimizer
    as they were (every raise precedes the first mutation) *)
-Fixpoint run (rnd : Q -> Q) (p : params) (decl : list (nat * ukind)) (dflt : Q)
+Fixpoint run (rnd rd : Q -> Q) (p : params) (decl : list (nat * ukind)) (dflt : Q)
   (st : state) (steps : list step_in) : list obs * state :=
   match steps with
   | [] => ([], st)
   | s :: t =>
-      let st1 := if s_restart s then restart p decl dflt st else inr st in
+      let st1 := if s_restart s then restart rd p decl dflt st else inr st in
       match st1 with
-      | inl e => let '(os, stf) := run rnd p decl dflt st t in (OErr e :: os, stf)
+      | inl e => let '(os, stf) := run rnd rd p decl dflt st t in (OErr e :: os, stf)
       | inr st1 =>
           match update rnd p decl dflt st1 (s_train s) (s_val s) (s_kw s) with
-          | inl e => let '(os, stf) := run rnd p decl dflt st1 t in (OErr e :: os, stf)
+          | inl e => let '(os, stf) := run rnd rd p decl dflt st1 t in (OErr e :: os, stf)
           | inr (cont, st2) =>
               let info := match hget (cache st2) (last_epoch (cache st2)) with
                           | Some r => r | None => row0 p end in
-              let '(os, stf) := run rnd p decl dflt st2 t in
+              let '(os, stf) := run rnd rd p decl dflt st2 t in
               (OOk cont (continue_training p st2) (opt st2) info :: os, stf)
           end
       end
@@ -352,13 +379,13 @@ Definition obs_eqb (tol : Q) (a b : obs) : bool :=
 
 (* correspondence entry point: the implementation's per-epoch observations, its final cache
    (get_info for every epoch) and the parsed final csv against the model *)
-Definition check (tol : Q) (rnd : Q -> Q) (p : params) (decl : list (nat * ukind)) (dflt : Q)
+Definition check (tol : Q) (rnd rd : Q -> Q) (p : params) (decl : list (nat * ukind)) (dflt : Q)
   (steps : list step_in) (impl_obs : list obs) (impl_cache : list row) (impl_csv : list crow) : bool :=
-  let '(os, stf) := run rnd p decl dflt (init_state p dflt) steps in
+  let '(os, stf) := run rnd rd p decl dflt (init_state p dflt) steps in
   leqb (obs_eqb tol) os impl_obs && leqb (row_eqb tol) (cache stf) impl_cache && leqb (crow_eqb tol) (csv stf) impl_csv.
 
 (* the rates an uninterrupted run reaches are all unchanged by the print rounding *)
-Definition all_rates_fixed (rnd : Q -> Q) (p : params) (decl : list (nat * ukind)) (dflt : Q)
+Definition all_rates_fixed (rnd rd : Q -> Q) (p : params) (decl : list (nat * ukind)) (dflt : Q)
   (steps : list step_in) : bool :=
-  let '(_, stf) := run rnd p decl dflt (init_state p dflt) steps in
-  forallb (fun r => match r_lr r with Some l => Qeq_bool (rnd l) l | None => true end) (cache stf).
+  let '(_, stf) := run rnd rd p decl dflt (init_state p dflt) steps in
+  forallb (fun r => match r_lr r with Some l => Qeq_bool (rd (rnd l)) l | None => true end) (cache stf).
